@@ -141,7 +141,7 @@ class C11(Prop):
   props_modules = ['PgProps.C11']
   driver = 'drv_c11'
   translators = []
-  case_timeout_s = 60
+  case_timeout_s = 240
   jobs_quick = 8
   rule = ('specs: random trees of spaces / single and multi choices (k<=4, n<=5, all distinct x sorted '
           'modes, nesting depth<=3, conditional sub-spaces of 1-3 elements), a non-finite stream with '
@@ -488,9 +488,13 @@ class C11(Prop):
     return 'other'
 
   def nontrivial(self, case, out):
+    if 'model' not in out:
+      return False
     return (not G.is_finite(case['spec'])) or (case['fuel'] > 3)
 
   def describe(self, case, out):
+    if 'model' not in out:
+      return ['timeout']
     spec = case['spec']
     h = []
     pts = G.points(spec)
